@@ -234,6 +234,8 @@ type fakeSource struct {
 	stopped  chan struct{}
 	stopOnce sync.Once
 	halted   bool // v1: Stop() was called, no further batches
+
+	lastDelivered chan struct{} // deferred acks are delivered in call order
 }
 
 func newFakeSource(x *run, s int, spec SrcSpec) *fakeSource {
@@ -289,20 +291,59 @@ func (f *fakeSource) Read(ctx context.Context) ([]opencdc.Record, error) {
 	}
 }
 
-// Ack parks like every other connector call; the ack is logged when it is
-// released, i.e. when it reaches the source: two acks of one source that are in
-// flight at the same time arrive in the order the schedule says.
+// Ack behaves like connector.Source.Ack in what it does with its argument: it KEEPS the
+// slice it is given (no copy) and looks at the positions only when the ack is delivered.
+//
+// Synchronous mode: the call parks on a gate like every other connector call and the ack
+// is logged when it is released, i.e. when it reaches the source - two acks of one source
+// that are in flight at the same time arrive in the order the schedule says. An engine
+// that calls Source.Ack after its context ended has still acked: the call is the
+// observation, so it is logged whether or not the gate was released by the schedule.
+//
+// Deferred mode (SrcSpec.DeferAck): like the real connector, Ack returns at once (the
+// engine goes on) and the ack is handed to the plugin later, in call order, when its gate
+// is released. The log records the ack at call time; if at delivery the retained slice no
+// longer holds the same positions (the caller reused the backing array), the positions it
+// holds THEN are what the plugin receives, and they are logged as a further ack.
 func (f *fakeSource) Ack(ctx context.Context, positions []opencdc.Position) error {
+	if !f.spec.DeferAck {
+		_ = f.x.sched.Park(ctx, fmt.Sprintf("K%d", f.s), f.spec.SlowAck, nil)
+		f.x.log.Add(Ev{T: "A", S: f.s, Ks: ksOf(positions)})
+		return nil
+	}
+	atCall := ksOf(positions)
+	f.x.log.Add(Ev{T: "A", S: f.s, Ks: atCall})
+	f.mu.Lock()
+	prev := f.lastDelivered
+	mine := make(chan struct{})
+	f.lastDelivered = mine
+	f.mu.Unlock()
+	f.x.pendingAcks.Add(1)
+	go func() {
+		defer f.x.pendingAcks.Done()
+		defer close(mine)
+		if prev != nil {
+			<-prev
+		}
+		_ = f.x.sched.Park(context.Background(), fmt.Sprintf("K%d", f.s), true, nil)
+		now := ksOf(positions)
+		same := len(now) == len(atCall)
+		for i := 0; same && i < len(now); i++ {
+			same = now[i] == atCall[i]
+		}
+		if !same {
+			f.x.log.Add(Ev{T: "A", S: f.s, Ks: now})
+		}
+	}()
+	return nil
+}
+
+func ksOf(positions []opencdc.Position) []int {
 	ks := make([]int, len(positions))
 	for i, p := range positions {
 		ks[i] = kOfPos(p)
 	}
-	// An engine that calls Source.Ack after its context ended has still acked: the call
-	// is the observation (the real connector may well persist the position), so it is
-	// logged whether or not the gate was released by the schedule.
-	_ = f.x.sched.Park(ctx, fmt.Sprintf("K%d", f.s), f.spec.SlowAck, nil)
-	f.x.log.Add(Ev{T: "A", S: f.s, Ks: ks})
-	return nil
+	return ks
 }
 
 // Stop is the v1 graceful stop: no further records, returns the last position read.
@@ -343,7 +384,14 @@ func (p *fakeProc) Process(ctx context.Context, recs []opencdc.Record) []sdk.Pro
 		case inSet(p.spec.Err, s, k):
 			out[i] = sdk.ErrorRecord{Error: cerrors.New("scripted processor error")}
 		default:
-			out[i] = sdk.SingleRecord(r)
+			if p.spec.Transform {
+				// a new record: same identity (key, position), rewritten payload
+				nr := r.Clone()
+				nr.Payload.After = opencdc.RawData(fmt.Sprintf("t:%d:%d", s, k))
+				out[i] = sdk.SingleRecord(nr)
+			} else {
+				out[i] = sdk.SingleRecord(r)
+			}
 		}
 	}
 	if len(evs) > 0 {
@@ -480,6 +528,7 @@ func RunV2(c Case, deadline time.Duration) Obs {
 	}
 	cctx, ccancel := context.WithTimeout(context.Background(), time.Second)
 	x.sched.FreeRun()
+	x.flushAcks()
 	if !o.Hang {
 		for _, w := range workers {
 			_ = w.Close(cctx)
